@@ -276,6 +276,7 @@ inline void Exec::new_add(int ki, int ni, bool allow_bad) {
     // ---- optional invalid twist
     Expect ex = XP_OK; const char *why = "valid"; unsigned cz = C_USAGE;
     bool unknown_rollback_region = false;
+    int hist_sub_j = -1, hist_sub_q = -1;      // clone history: the clone uses its own (undeleted) twin of a deleted handle
     if (allow_bad && c.chance(1, 4)) {
         int nh = (int)a->pidx.size();
         switch (c.weighted({2, 2, a->ab ? 2u : 0u, 2, st.k >= 2 ? 1u : 0u, nh > 0 ? 3u : 0u, st.entry == cs::Standard::MAPPED ? 2u : 0u, (st.entry == cs::Standard::MAPPED && st.k < P) ? 2u : 0u})) {
@@ -287,6 +288,11 @@ inline void Exec::new_add(int ki, int ni, bool allow_bad) {
         case 5: {
             size_t j = c.draw((size_t)nh);
             a->pidx[j] = -1; a->raw[j] = bad_handle(K, why); ex = XP_FAIL;
+            // "a copy of the parameter will continue to exist internally until the last reference has been released":
+            // a deleted handle this vnacal_new_t still references is found in its own table -- either outcome
+            for (size_t q = 0; q < K.params.size(); q++) if (K.params[q].deleted && K.params[q].h == a->raw[j] && N.registered.count((int)q)) { ex = XP_EITHER; why = "deleted-handle-still-referenced"; hist_sub_j = (int)j; hist_sub_q = (int)q; }
+            // open finding rejected-standard-not-rolled-back: parameters of a REJECTED standard stay in the table too
+            for (size_t q = 0; q < K.params.size(); q++) if (ex == XP_FAIL && K.params[q].deleted && K.params[q].h == a->raw[j] && N.stale.count((int)q)) { ex = XP_EITHER; why = "deleted-handle-left-by-rejected-standard"; excl_unknown_rollback = true; }
             for (size_t q = 0; q < j; q++) if (a->pidx[q] >= 0 && !N.registered.count(a->pidx[q]) && K.params[a->pidx[q]].kind >= ParamRec::UNKNOWN) unknown_rollback_region = true;
             break;
         }
@@ -318,14 +324,15 @@ inline void Exec::new_add(int ki, int ni, bool allow_bad) {
         if (from_todo) N.todo.pop_back();
         if (ex == XP_OK) sc.stds.push_back(st); else N.pristine = false;     // accepted although not known valid: no claims about solves any more
         if (!full_s) N.partial_s = true;
-        for (int pi : a->pidx) if (pi >= 0) N.registered.insert(pi);
+        for (int pi : a->pidx) for (int q = pi; q >= 0; q = K.params[q].other) N.registered.insert(q);     // a correlated parameter registers its correlate too
         std::vector<int> pidx = a->pidx, raw = a->raw;
+        if (hist_sub_j >= 0) pidx[hist_sub_j] = hist_sub_q;
         N.hist.push_back([a, pidx, raw](vnacal_new_t *p, const std::function<int(int)> &map) {
             std::vector<int> hh; for (size_t j = 0; j < pidx.size(); j++) hh.push_back(pidx[j] >= 0 ? map(pidx[j]) : raw[j]);
             return do_add(p, *a, hh);
         });
         N.hist_desc.push_back(std::string(fn) + " " + st.describe());
-    } else N.refused++;
+    } else { N.refused++; for (int pi : a->pidx) for (int q = pi; q >= 0; q = K.params[q].other) N.stale.insert(q); }
 }
 
 // a reflect standard whose reflection coefficient is an unknown (or correlated) parameter
@@ -390,14 +397,14 @@ inline void Exec::new_add_unknown(int ki, int ni) {
     if (rc == 0) {
         N.pristine = false;
         if (!full_s) N.partial_s = true;
-        for (int pi : a->pidx) if (pi >= 0) N.registered.insert(pi);
+        for (int pi : a->pidx) for (int q = pi; q >= 0; q = K.params[q].other) N.registered.insert(q);     // a correlated parameter registers its correlate too
         std::vector<int> pidx = a->pidx, raw = a->raw;
         N.hist.push_back([a, pidx, raw](vnacal_new_t *p, const std::function<int(int)> &map) {
             std::vector<int> hh; for (size_t j = 0; j < pidx.size(); j++) hh.push_back(pidx[j] >= 0 ? map(pidx[j]) : raw[j]);
             return do_add(p, *a, hh);
         });
         N.hist_desc.push_back(std::string(fn) + " (unknown) " + st.describe());
-    } else N.refused++;
+    } else { N.refused++; for (int pi : a->pidx) for (int q = pi; q >= 0; q = K.params[q].other) N.stale.insert(q); }
 }
 
 inline void Exec::new_solve(int ki, int ni) {
